@@ -142,7 +142,38 @@ def _where(e):
     return "%s:%d" % (os.path.basename(last.tb_frame.f_code.co_filename), last.tb_lineno)
 
 
+class RunTimeout(BaseException):
+    """raised by the per-run watchdog (SIGALRM): a BaseException so that no `except Exception` in the code under test
+    swallows it"""
+
+
+RUN_TIMEOUT_S = [int(os.environ.get("VERIF_RUN_TIMEOUT_S", "60"))]
+_TIMEOUTS_SEEN = [None]      # shared counter (multiprocessing.Value) of runs that hit the watchdog in this batch
+
+
+def _on_alarm(signum, frame):
+    raise RunTimeout()
+
+
 def run_case(case, want_log=False):
+    """One run = a pure function of the case.  A per-run wall-clock watchdog (two orders of magnitude above what the
+    slowest run takes) turns a call that never returns - an endless loop introduced into the code under test - into a
+    violation of the run's property instead of a hung check."""
+    import signal
+    import threading
+    use_alarm = hasattr(signal, "SIGALRM") and threading.current_thread() is threading.main_thread() and RUN_TIMEOUT_S[0] > 0
+    if use_alarm:
+        old_handler = signal.signal(signal.SIGALRM, _on_alarm)
+        signal.alarm(RUN_TIMEOUT_S[0])
+    try:
+        return _run_case(case, want_log)
+    finally:
+        if use_alarm:
+            signal.alarm(0)
+            signal.signal(signal.SIGALRM, old_handler)
+
+
+def _run_case(case, want_log=False):
     seams.install()
     cfg = case.get("cfg", {})
     CTX.reset(cfg)
@@ -163,8 +194,15 @@ def run_case(case, want_log=False):
                 break
             except HarnessError:
                 raise
-            except (RecursionError, MemoryError):
+            except MemoryError:
                 raise
+            except RunTimeout:
+                focus = cfg.get("focus") or getattr(m, "ROUNDTRIP_PROP", "C00")
+                v = Violation(focus, "%s.public_api_call_completes" % focus, "run-did-not-finish/%s/%s" % (case["machine"], op["op"]),
+                              {"limit_s": RUN_TIMEOUT_S[0]})
+                vrec = v.record(i)
+                log.append([i, op["op"], "VIOLATION", v.invariant, v.cause_key])
+                break
             except Exception as e:
                 # A productmd call that the harness makes unconditionally (assigning a public attribute,
                 # constructing an object, reading a public mapping) blew up.  On the unchanged tree this never
@@ -184,8 +222,6 @@ def run_case(case, want_log=False):
                 vrec = v.record(len(case["ops"]))
                 log.append([len(case["ops"]), "finish", "VIOLATION", v.invariant, v.cause_key])
     except HarnessError:
-        raise
-    except RecursionError:
         raise
     trace_digest = digest([_norm_trace(t) for t in CTX.fs.trace])
     res = {
@@ -276,7 +312,7 @@ def case_for(prop, tier, seed, idx):
 def _worker(args):
     prop, tier, seed, indices, deadline = args
     import faulthandler
-    faulthandler.dump_traceback_later(600, exit=True)
+    faulthandler.dump_traceback_later(7000, exit=True)
     try:
         seams.install()
         known = load_known()
@@ -287,8 +323,16 @@ def _worker(args):
             if deadline and time.time() > deadline:
                 agg["skipped"] += 1
                 continue
+            if _TIMEOUTS_SEEN[0] is not None and _TIMEOUTS_SEEN[0].value >= 3:
+                # the code under test hangs: three runs of this batch already ran into the watchdog - that is a verdict,
+                # the rest of the batch would only burn a timeout per run
+                agg["skipped"] += 1
+                continue
             case = case_for(prop, tier, seed, idx)
             res = run_case(case)
+            if res["violation"] is not None and res["violation"]["cause_key"].startswith("run-did-not-finish") and _TIMEOUTS_SEEN[0] is not None:
+                with _TIMEOUTS_SEEN[0].get_lock():
+                    _TIMEOUTS_SEEN[0].value += 1
             agg["runs"] += 1
             agg["ops"] += res["nops"]
             for k, v in res["faults"].items():
@@ -332,6 +376,68 @@ def _worker(args):
         _simfs.cleanup()
 
 
+def _chunk_child(task, conn):
+    try:
+        conn.send(_worker(task))
+    finally:
+        conn.close()
+        from . import simfs as _simfs
+        _simfs.cleanup()
+    os._exit(0)
+
+
+def _run_chunks(tasks, workers):
+    """At most `workers` forked processes, one per chunk, each sending its result over a pipe.  A process that dies
+    without a result (the interpreter crashed: stack overflow, abort, kill) closes the pipe; that is seen at once and
+    reported for the chunk - nothing ever waits on a dead worker."""
+    import multiprocessing.connection as mpc
+    ctx = multiprocessing.get_context("fork")
+    _TIMEOUTS_SEEN[0] = ctx.Value("i", 0)
+    pending = list(enumerate(tasks))
+    running = {}
+    results = [None] * len(tasks)
+    try:
+        while pending or running:
+            while pending and len(running) < workers:
+                i, t = pending.pop(0)
+                r, w = ctx.Pipe(duplex=False)
+                p = ctx.Process(target=_chunk_child, args=(t, w))
+                p.start()
+                w.close()
+                running[i] = (p, r)
+            ready = mpc.wait([c for _, c in running.values()], timeout=5.0)
+            for i, (p, c) in list(running.items()):
+                if c in ready:
+                    try:
+                        results[i] = c.recv()
+                    except (EOFError, OSError):
+                        p.join(10)
+                        results[i] = {"died": p.exitcode, "task": tasks[i]}
+                    c.close()
+                    p.join(30)
+                    del running[i]
+    except BaseException:
+        for p, c in running.values():
+            try:
+                p.terminate()
+            except Exception:
+                pass
+        raise
+    return results
+
+
+def _died_result(r):
+    """a chunk whose process died: reported as a violation of the run's property (the public API did not return), with
+    the whole chunk as sequence replay"""
+    prop, tier, seed, indices, deadline = r["task"]
+    v = {"property": prop, "invariant": "%s.public_api_call_completes" % prop, "cause_key": "interpreter-died/exit%s" % r["died"],
+         "detail": {"exitcode": r["died"], "chunk": list(indices)[:5] + ["..."]}, "step": 0}
+    idx = list(indices)[-1]
+    return {"runs": 0, "ops": 0, "faults": {}, "probes": {}, "evals": 0, "distinct": set(), "known": {}, "foreign": {}, "hist": {},
+            "samples": [], "skipped": len(indices), "digests": [], "viol_keys": {v["cause_key"]: 1}, "more_violations": 0,
+            "violations": [{"idx": idx, "case": case_for(prop, tier, seed, idx), "violation": v, "chunk_prefix": list(indices), "died": True}]}
+
+
 def run_batch(prop, tier, seed, nruns, workers=None, budget_s=None, log=print):
     workers = workers or min(16, os.cpu_count() or 1)
     nchunks = max(workers * 6, 1)
@@ -348,22 +454,8 @@ def run_batch(prop, tier, seed, nruns, workers=None, budget_s=None, log=print):
     else:
         # one freshly forked process per chunk (maxtasksperchild=1): the process state a run sees is exactly the history
         # of its own chunk - never that of another chunk - so a sequence replay can re-create it
-        ctx = multiprocessing.get_context("fork")
-        results = []
-        pool = ctx.Pool(processes=workers, maxtasksperchild=1)
-        try:
-            asyncs = [pool.apply_async(_worker, (t,)) for t in tasks]
-            for a in asyncs:
-                try:
-                    results.append(a.get(timeout=3600))
-                except multiprocessing.TimeoutError:
-                    raise HarnessError("a worker process died or timed out")
-            pool.close()
-        except BaseException:
-            pool.terminate()
-            raise
-        finally:
-            pool.join()
+        results = _run_chunks(tasks, workers)
+    results = [_died_result(r) if "died" in r else r for r in results]
     for r in results:
         if "harness_error" in r:
             raise HarnessError("worker raised:\n" + r["harness_error"])
@@ -457,13 +549,15 @@ def shrink(case, vrec, max_execs=600):
 # ---------------------------------------------------------------------------
 # replay files
 # ---------------------------------------------------------------------------
-def write_replay(prop, seed, idx, case, vrec, original_len, tier):
+def write_replay(prop, seed, idx, case, vrec, original_len, tier, run_timeout_s=None):
     d = os.environ.get("VERIF_REPLAY_DIR") or os.path.join(VERIF, "replays")
     os.makedirs(d, exist_ok=True)
     path = os.path.join(d, "%s-%d-%d.json" % (prop, seed, idx))
     doc = {"property": prop, "machine": case["machine"], "cfg": case["cfg"], "ops": case["ops"],
            "violation": vrec, "original_seed": seed, "run_index": idx, "original_len": original_len,
            "tier": tier, "pythonhashseed": os.environ.get("PYTHONHASHSEED", "random")}
+    if run_timeout_s:
+        doc["run_timeout_s"] = run_timeout_s
     with open(path, "w") as f:
         json.dump(doc, f, indent=1, sort_keys=True)
     return path
@@ -534,8 +628,16 @@ def determinism_precheck(prop, tier, seed, n=3):
     # executed in a forked child so that the main process (which later forks the workers) never runs a case itself:
     # a worker's process state is then exactly the history of its own chunk, which is what a sequence replay re-creates
     ctx = multiprocessing.get_context("fork")
-    with ProcessPoolExecutor(max_workers=1, mp_context=ctx) as ex:
-        pairs = ex.submit(_precheck_child, (prop, tier, seed, n)).result(timeout=900)
+    try:
+        with ProcessPoolExecutor(max_workers=1, mp_context=ctx) as ex:
+            pairs = ex.submit(_precheck_child, (prop, tier, seed, n)).result(timeout=900)
+    except HarnessError:
+        raise
+    except Exception as e:
+        # the child died or could not finish (the code under test crashed / hung the interpreter): the batch itself will
+        # report that as a violation with a replay; the precheck just says it could not be done
+        print("NOTE: determinism precheck could not be completed (%s)" % type(e).__name__)
+        return {"seeds_checked": 0, "aborted": type(e).__name__}
     first = []
     carried = False
     for idx, (a, b) in enumerate(pairs):
@@ -548,7 +650,8 @@ def determinism_precheck(prop, tier, seed, n=3):
                         "--tier", tier, "--seed", str(seed)],
                        env=env, stdout=subprocess.PIPE, stderr=subprocess.PIPE, timeout=600)
     if p.returncode != 0:
-        raise HarnessError("determinism sub-run failed: %s" % p.stderr.decode("utf-8", "replace")[-2000:])
+        print("NOTE: determinism sub-run under another hash seed failed (exit %d)" % p.returncode)
+        return {"seeds_checked": n, "in_process_twice": not carried, "fresh_interpreter_other_hashseed": None, "aborted": "sub-run exit %d" % p.returncode}
     other = p.stdout.decode().split()
     res = {"seeds_checked": n, "in_process_twice": not carried, "fresh_interpreter_other_hashseed": other == first}
     if carried:
